@@ -5,12 +5,17 @@
                      -> the tree as  [0, c]  (leaf)  /  [1, c, [[] | [tree] ..]]  (one entry per child of the
                         rule: what harness/props/c12.py Desc.tree builds on real objects), or [-1]
      [6, label, o]   unparse (parse o): backward maps composed bottom-up         -> [o'] or [-1]
-   atom c = the object of an AtomStrategy rule (descriptor [3, m, o]); every other verification rule has no
-   leaf (its objects have no parse tree in the model: [-1]). *)
+     [7, label, o]   size and parameter tuple of parse o computed ON THE TREE from the leaf data of the descriptors
+                     and the rules' parameter maps (Count/ParseTreesStats.v tszd / tprd = tsz / tpr of
+                     Count/ParseTreesProofs.v when the leaf data are truthful, ParseTreesStatsProofs.v)
+                                                                                -> [size, params] or [-1]
+   atom c = the object of a verification rule of a one-object class (descriptor [3, m, o] - AtomStrategy - or
+   [3, m, o, params] - an atom with parameters); every other verification rule has no leaf (its objects have no
+   parse tree in the model: [-1]). *)
 From Coq Require Import ZArith List Bool.
 From CSS Require Import Base.Sx Base.PyList Gen.Prelude Gen.Compositions Count.ObjectsModel
                         Count.ObjectsCountModel Count.ObjectsTermsModel Count.ObjectsRun
-                        Count.SampleModel Count.ParseTrees.
+                        Count.SampleModel Count.ParseTrees Count.ParseTreesStats.
 Import ListNotations.
 Open Scope Z_scope.
 
@@ -56,6 +61,8 @@ Definition run_query_p (q : sx) : sx :=
   | None => L [I (-1)]
   | Some t =>
       if Z.eqb kind 5 then enc_tree t
+      else if Z.eqb kind 7 then
+        L [I (tszd (asz_of_descs descs) t); of_Zs (tprd (spec_of rules) (apar_of_descs descs) t)]
       else match unparse (spec_of rules) atom_run t with
            | Some o => L [I o]
            | None => L [I (-1)]
@@ -69,7 +76,7 @@ Fixpoint run_queries_p (s : cache) (t : tcache) (qs : list sx) : list sx :=
   | q :: r =>
       let a := sx_list q in
       let kind := sx_Z (nth 0 a (I 0)) in
-      if Z.eqb kind 5 || Z.eqb kind 6 then run_query_p q :: run_queries_p s t r
+      if Z.eqb kind 5 || Z.eqb kind 6 || Z.eqb kind 7 then run_query_p q :: run_queries_p s t r
       else if Z.eqb kind 4 then
         match get_terms (tspec_run rules) FUEL t (sx_nat (nth 1 a (I 0))) (sx_Z (nth 2 a (I 0))) with
         | Some (t', tm) => enc_terms tm :: run_queries_p s t' r
@@ -86,12 +93,15 @@ Definition run_c07p (inp : sx) : sx :=
 
 (* ---------------------------------------------------------------- decidable hypotheses, evaluated on the case
    run_c07d = run_c07p with ONE more output field appended after the answers:
-     [rank_ok, closed_ok, depth]
+     [rank_ok, closed_ok, depth, leaves_ok]
    rank_ok   = Count/ParseTreesDeciders.v rankb of the rules decoded from the descriptors (1: a productivity
                certificate exists for this specification, for all sizes - ParseTreesDecidersProofs.v rankb_sound),
    closed_ok = closedb of them (closedb_sound),
    depth     = the largest position of the computed topological numbering of the same-size class graph when
-               rank_ok, else 0 (compared with the harness's own longest-path computation). *)
+               rank_ok, else 0 (compared with the harness's own longest-path computation),
+   leaves_ok = Count/ParseTreesStats.v leavesb: no verification rule is given by a table, i.e. every verified class
+               is one object (with its size and parameters in the descriptor) or empty - the decidable part of
+               node_ok at the leaves (ParseTreesStatsProofs.v leavesb_sound). *)
 From CSS Require Import Count.ParseTreesDeciders.
 
 Definition rules_of_descs (descs : list sx) : list (rule Z) := map (fun d => fst (dec_rule d)) descs.
@@ -100,7 +110,8 @@ Definition rank_verdict (descs : list sx) : sx :=
   let rs := rules_of_descs descs in
   let pos := find_pos rs in
   let ok := check_pos rs pos in
-  L [of_bool ok; of_bool (closedb rs); of_nat (if ok then fold_right Nat.max 0%nat pos else 0%nat)].
+  L [of_bool ok; of_bool (closedb rs); of_nat (if ok then fold_right Nat.max 0%nat pos else 0%nat);
+     of_bool (leavesb descs)].
 
 Definition run_c07d (inp : sx) : sx :=
   L (sx_list (run_c07p inp) ++ [rank_verdict (sx_list (sx_nth inp 0))]).
